@@ -315,6 +315,9 @@ def run(ctx):
             o = o.strip()
             if o.k == "bin" and o.a in ("Eq", "Ne") and any(c == M + "Follow::follow_at_depth" for c in o.callees()) and any(c == E + "WalkEntry::follow" for c in o.callees()):
                 return "same:" + o.a
+            # `entry.follow() == entry.file_type().is_symlink()`: the two middle rows of the table as one comparison
+            if o.k == "bin" and o.a in ("Eq", "Ne") and len(o.kids) == 2 and sorted((k.strip().a["callee"] if k.strip().k == "call" else "?") for k in o.kids) == sorted([E + "WalkEntry::follow", E + "FileType::is_symlink"]):
+                return "agree:" + o.a
             return None
         g0 = prim.event_graph(fm, role, branch_role=brole)
         g = C.G(g0)
@@ -325,7 +328,7 @@ def run(ctx):
             n = 0
             for s, ef, lk in itertools.product([False, True], repeat=3):
                 eq = (C.base(same[0]) == "same:Eq")
-                asg = {C.base(same[0]): (s if eq else not s), "entry.follow": ef, "is_link": lk}
+                asg = {C.base(same[0]): (s if eq else not s), "entry.follow": ef, "is_link": lk, "agree:Eq": ef == lk, "agree:Ne": ef != lk}
                 # the first entry.follow feeds the comparison (no outcome label): only labelled nodes are decided
                 tr = C.simulate(g0, asg, edges=g.edges)
                 want = "cached" if (s or (not ef and not lk) or (ef and lk)) else "fresh"
